@@ -13,7 +13,7 @@ use serde::{Deserialize, Serialize};
 use serde_json::Value;
 use std::sync::{Arc, Mutex};
 
-pub const RULE: &str = "element type T in {u8..u64, i8..i64, u128, i128, f32, f64, f16, bf16} and Complex<f32|f64>, elements built from raw generated bits (all NaN payloads, +-inf, +-0, subnormals, integer extremes), lengths from {0,1,2,7,8,9,255,256,4095,4096} U uniform 0..4096 U {2^16,2^20}, query lengths 0..64, receive-buffer misalignment 0..7; oracles: bulk bytes == serde bytes (len>0), each decoder reads the other encoder's output bit-for-bit (every len incl. 0), streaming writers == buffered builders, aligned form through a borrowing route's handle_view at every (query length, misalignment) yields the same bits, a slice pointing into the receive buffer is aligned and an aligned payload is borrowed, wrong element type/format rejected; non-trivial = len>0 with a non-finite/extreme element, or len=0, or (query mod 8, misalignment) != (0,0); distinct = case hash";
+pub const RULE: &str = "element type T in {u8..u64, i8..i64, u128, i128, f32, f64, f16, bf16} and Complex<f32|f64>, elements built from raw generated bits (all NaN payloads, +-inf, +-0, subnormals, integer extremes), lengths from {0,1,2,7,8,9,255,256,4095,4096} U uniform 0..4096 U {2^16,2^20}, query lengths 0..64, receive-buffer misalignment 0..7; oracles: bulk bytes == serde bytes (len>0), each decoder reads the other encoder's output bit-for-bit (every len incl. 0), streaming writers == buffered builders, aligned form through a borrowing route's handle_view at every (query length, misalignment) yields the same bits, a slice pointing into the receive buffer is aligned and an aligned payload is borrowed, wrong element type/format rejected; (net-e2e) bulk, aligned and generic clients (sync and async) against bulk, borrowing and generic routes on Server and AsyncServer over loopback, for every query-length residue: echoed elements bit-identical; the aligned form sent to a non-borrowing route fails or is faithful; non-trivial = len>0 with a non-finite/extreme element, or len=0, or (query mod 8, misalignment) != (0,0); distinct = case hash";
 
 #[derive(Debug, Clone, Copy, Serialize, Deserialize, Hash, PartialEq, Eq)]
 pub enum Ty {
